@@ -49,6 +49,10 @@ class Unjudged:
     pass
 
 
+class MyInt(int):
+    """An Integral that is not exactly int."""
+
+
 def int_pool(name):
     lo, hi = midi1.DOMAIN[name]
     mid = (lo + hi) // 2
@@ -61,6 +65,9 @@ def int_pool(name):
     # equal-valued non-int twins of values that were certainly validated before
     for x in (lo, hi, mid, dflt, 1 if lo <= 1 <= hi else lo):
         bad += [float(x), fractions.Fraction(x), decimal.Decimal(x)]
+    import enum
+    Big = enum.IntEnum('Big', {'OVER': hi + 1, 'UNDER': lo - 1, 'FAR': hi + 1000})
+    bad += [MyInt(hi + 1), MyInt(lo - 1), MyInt(hi + 300), Big.OVER, Big.UNDER, Big.FAR]
     bad = [v for v in bad if not (isinstance(v, int) and not isinstance(v, bool) and lo <= v <= hi)]
     unj = [True, False]
     return good, bad, unj
@@ -256,6 +263,36 @@ def grid_for_type(ctx, t):
                 continue
             judge_call(ctx, t, name, 1 if name != 'data' else (1,), False, entry)
             ctx.nontrivial((t, name, 'foreign', entry))
+            n += 1
+    # a positional type together with a type= keyword (the same or another one) is a contradiction in terms
+    for other_t in ('note_on', 'sysex', 'clock', 'polytouch', t, 0x90, 0xF0):
+        case_t = {'kind': 'type-attr', 'type': t, 'keyword_type': repr(other_t)}
+        for how in ('ctor', 'int-type'):
+            try:
+                if how == 'ctor':
+                    r = Message(t, **{'type': other_t})
+                else:
+                    if not isinstance(other_t, int):
+                        continue
+                    r = Message(other_t)
+                why = midi1.valid(r)
+                ctx.check('state valid after accept', why is None and isinstance(r.type, str), f'{how}:type-conflict:invalid-state',
+                          case_t, lambda: {'why': why, 'msg': repr(vars(r))[:120]})
+            except OKEXC:
+                ctx.count('out-of-domain rejected')
+            except Exception as exc:
+                ctx.check('exception class', False, f'{how}:type-conflict:{type(exc).__name__}', case_t, str(exc))
+            n += 1
+    for st in (0x80, 0x90, 0xB3, 0xF0, 0xF8, 144.0):
+        for entry in ('from_dict',):
+            case_t = {'kind': 'type-attr', 'type': repr(st)}
+            try:
+                r = Message.from_dict({'type': st})
+                ctx.check('out-of-domain rejected', False, 'from_dict:status-byte-as-type', case_t, repr(vars(r))[:120])
+            except OKEXC:
+                ctx.count('out-of-domain rejected')
+            except Exception as exc:
+                ctx.check('exception class', False, f'from_dict:type:{type(exc).__name__}', case_t, str(exc))
             n += 1
     # the type attribute
     other = 'note_off' if t != 'note_off' else 'note_on'
